@@ -80,6 +80,11 @@ RULE = ('random sessions: responder scripts of 0..8 ops x client scripts of 0..6
         '(with/without code) x failing send index 0..4 of 5 kinds (OSError, OSError from "received 1001", "code = 1000 (OK)", subprotocol rejection, RuntimeError) '
         'x ASGI spec 2.0-2.4 x max_receive_queue 0/4 x process_request_ws / process_resource_ws middleware scripts x custom error handler scripts '
         'x route (responder / unrouted / no on_websocket) x first event not connect x error_close_code valid/reserved/<1000 x random yields in the server callables; '
+        'every send carries a random payload (text over an alphabet with quotes, backslash, control characters, NUL, U+2028, BOM, non-BMP; bytes incl. 00/FF/invalid UTF-8; '
+        'nested JSON documents without floats, via the JSON TEXT handler or the stub BINARY handler), every client message a random payload (valid JSON with whitespace padding, '
+        'non-JSON text, binary) with the other key absent or None; plus payload sessions (accept, then <= 10 send/receive ops, <= 8 client messages) that also contain what only the '
+        'payload model covers: client events with no payload (no key / None keys) or two payloads, bytes the stub rejects (bad magic, bad UTF-8, bad JSON), documents the serializer '
+        'rejects, send_media(BINARY) without msgpack; '
         'plus every script of length <= 2 (quick) / <= 3 (thorough) over 13 ops x 3 client scripts x fault index x queue 0/4; '
         'non-trivial = at least one event was handed to the server\'s send; distinct = distinct driver line (configuration + scripts + observed flags)')
 PARTIAL = ('the disconnect flag is an input of the model (observed on the real object and fed to the driver), its timing is C18\'s subject; '
@@ -749,18 +754,28 @@ def run(ctx):
                         # the statement: receive_text needs a text payload, receive_data a binary one (else PayloadTypeError); receive_media
                         # hands the payload to the handler of its type; the value is the client's payload, unchanged
                         exp = None; text = ev.get('text'); data = ev.get('bytes')
-                        if tok == 'Rt': want = 'ok' if text is not None else 'PTE'; exp = text
-                        elif tok == 'Rd': want = 'ok' if data is not None else 'PTE'; exp = data
-                        elif text is not None:
-                            try: exp = json.loads(text); want = 'ok'
-                            except ValueError: want = 'VEO'
-                        elif data is None: want = 'PTE'
-                        elif not spec['binh']: want = 'PY'           # no msgpack: MissingDependencyHandler
-                        else:
+
+                        def via_text():
+                            try: return 'ok', json.loads(text)
+                            except ValueError: return 'VEO', None
+
+                        def via_bytes():
+                            if not spec['binh']: return 'PY', None            # no msgpack: MissingDependencyHandler
                             try:
                                 if data[:2] != b'\x00J': raise ValueError
-                                exp = json.loads(data[2:].decode('utf-8')); want = 'ok'
-                            except ValueError: want = 'VEO'
+                                return 'ok', json.loads(data[2:].decode('utf-8'))
+                            except ValueError: return 'VEO', None
+                        if tok == 'Rt': want = 'ok' if text is not None else 'PTE'; exp = text
+                        elif tok == 'Rd': want = 'ok' if data is not None else 'PTE'; exp = data
+                        elif text is not None and data is not None:
+                            # outside the ASGI spec (two payloads): the statement does not say which handler is used; either is accepted
+                            want, exp = via_text()
+                            alt = via_bytes()
+                            if out == alt[0] and (out != 'ok' or (r.get('value') == alt[1] and type(r.get('value')) is type(alt[1]))):
+                                want, exp = alt
+                        elif text is not None: want, exp = via_text()
+                        elif data is not None: want, exp = via_bytes()
+                        else: want = 'PTE'
                         if out == 'ok' and want == 'ok' and (r.get('value') != exp or type(r.get('value')) is not type(exp)):
                             return f'{where}: client message #{nxt - 1} {ev!r} arrived as {r.get("value")!r}'
                 if out != want: return f'{where}: got {out}, the documented outcome is {want}'
@@ -952,7 +967,13 @@ LEVEL_TEXT = ('Machine-checked proofs (Lean 4) over an executable model that tra
               '(emitted_trace_legal[_mw]); a session that returns normally is closed, denied or known lost (closed_unless_escaped[_mw]); no close reason reaches a server '
               'that does not support it (reason_only_if_supported); the wrong-state error table, the close-code table and the error -> close-code mapping are theorems. The model is tied to the real falcon.asgi.App (source mode) on every '
               'run by a differential correspondence on the exact sequence of send calls (incl. which one raised), per-op outcomes, escaped exception and the public '
-              'state flags, in both queue modes; an independent protocol monitor and (state, op) oracle written from the statement decide failing inputs.')
+              'state flags, in both queue modes; an independent protocol monitor and (state, op) oracle written from the statement decide failing inputs. '
+              'The last clause (payloads arrive unchanged in order) is proved over the payload-carrying refinement Wp (WsPayload.lean: events carry the text/bytes under the key '
+              'ws.py uses, client events have each key absent / None / a value, media handlers are arbitrary functions that may raise): sent_payloads_in_order_unchanged, '
+              'received_payloads_in_order_unchanged (and its composition with C18 for the buffered receiver), wrong_payload_type_errors_exact, media_roundtrip (instantiated with the '
+              'C12 JSON model), and project_to_Ws, the refinement that maps every Wp session to the Ws session of its kinds, so the 57 kind-level theorems describe the same sessions. '
+              'Wp is tied to the real App by a second correspondence on the same sessions comparing the hex of every payload handed to the server (with its key) and of every value '
+              'returned by receive_* (media: the JSON text of the document).')
 LEVEL_NOTE = ('Trusted: Lean kernel + standard axioms; the scripted ASGI server, correspondence harness and oracles. The disconnect flag is a model input fed from the '
-              'real object (its timing is C18). Payload identity/order is enforced by the statement oracle on the real code, not as a theorem (the model abstracts payloads to kinds).')
+              'real object (its timing is C18). The media handlers are abstract in the theorems; the driver instantiates them with the C12 JSON model and the harness\' stub binary handler.')
 TECHNIQUE = 'Lean 4 invariant proof over an executable session model + differential correspondence model vs. real falcon.asgi.App + independent ASGI protocol monitor'
